@@ -10,7 +10,7 @@
 //! After a successful connect the client writes a fixed marker through the returned stream; the
 //! marker must never be visible in the raw bytes of an https/wss request.
 //!
-//! line: `tls <cfg 0|1> <alpn-client -|h2|h11|both> <scheme> <host> <port|-> <peer> <alpn-server -|h2|h11|both>`
+//! line: `tls <cfg 0|1> <alpn-client -|h2|h11|both> <scheme> <host> <port|-> <peer> <alpn-server -|h2|h11|both> [<uri built by s=parsing a string | p=Uri::builder() from parts> <Host header|->]`
 //! obs : `<result> <wire none|tls|ascii|other> <leak 0|1> <sni|-> <alpn -|h2|h11> <app 0|1> <namevalid 0|1>`
 //!   result: ok-tls | ok-plain | err-conn | err-hs | err-nodomain | err-name | err-other | timeout | panic | bad-uri
 use crate::rng::Rng;
@@ -45,7 +45,9 @@ const ALPN: &[&str] = &["-", "-", "h2", "h11", "both"];
 pub fn gen(r: &mut Rng, _i: u64) -> String {
     let cfg = if r.chance(6, 7) { 1 } else { 0 };
     let port = match r.below(5) { 0 | 1 => "-".to_string(), 2 => "443".into(), 3 => "80".into(), _ => r.range(1, 65535).to_string() };
-    format!("{cfg} {} {} {} {port} {} {}", r.pick(ALPN), r.pick(SCHEMES), r.pick(HOSTS), r.pick(PEERS), r.pick(ALPN))
+    let build = if r.chance(1, 3) { "p" } else { "s" };
+    let hh = if r.chance(1, 4) { *r.pick(&["other.test", "internal.other.test", "example.com", "localhost:8443", "evil.invalid"]) } else { "-" };
+    format!("{cfg} {} {} {} {port} {} {} {build} {hh}", r.pick(ALPN), r.pick(SCHEMES), r.pick(HOSTS), r.pick(PEERS), r.pick(ALPN))
 }
 
 /// every combination of scheme x host x peer (TLS configured, no ALPN) plus the ALPN square on the happy path
@@ -61,6 +63,11 @@ pub fn exhaustive() -> Vec<String> {
             for h in HOSTS {
                 for p in &peers {
                     out.push(format!("tls {cfg} - {s} {h} - {p} -"));
+                    if *p == "good" || *p == "plain" {
+                        out.push(format!("tls {cfg} - {s} {h} - {p} - p -"));
+                        out.push(format!("tls {cfg} - {s} {h} - {p} - s other.test"));
+                        out.push(format!("tls {cfg} - {s} {h} - {p} - p example.com"));
+                    }
                 }
             }
         }
@@ -247,13 +254,21 @@ fn sni_of(raw: &[u8]) -> Option<String> {
 fn contains(h: &[u8], n: &[u8]) -> bool { h.windows(n.len()).any(|w| w == n) }
 
 pub fn run(toks: &[&str]) -> String {
-    if toks.len() != 7 { return "bad-line".into(); }
+    if toks.len() != 7 && toks.len() != 9 { return "bad-line".into(); }
+    let (from_parts, host_hdr) = if toks.len() == 9 { (toks[7] == "p", toks[8]) } else { (false, "-") };
     install();
     let (cfg, alpnc, scheme, host, port, kind, alpns) = (toks[0] == "1", toks[1], toks[2], toks[3], toks[4], toks[5], toks[6]);
     let uri = if port == "-" { format!("{scheme}://{host}/p") } else { format!("{scheme}://{host}:{port}/p") };
     let stripped = host.strip_prefix('[').and_then(|h| h.strip_suffix(']')).unwrap_or(host);
     let nv = ServerName::try_from(stripped).is_ok() as u8;
-    let Ok(req) = http::Request::builder().uri(&uri).body(()) else { return format!("bad-uri none 0 - - 0 {nv}") };
+    let built: Option<http::Uri> = if from_parts {
+        let auth = if port == "-" { host.to_string() } else { format!("{host}:{port}") };
+        http::Uri::builder().scheme(scheme).authority(auth).path_and_query("/p").build().ok()
+    } else { uri.parse().ok() };
+    let Some(built) = built else { return format!("bad-uri none 0 - - 0 {nv}") };
+    let mut rb = http::Request::builder().uri(built);
+    if host_hdr != "-" { rb = rb.header(http::header::HOST, host_hdr); }
+    let Ok(req) = rb.body(()) else { return format!("bad-uri none 0 - - 0 {nv}") };
     let (parts, _) = req.into_parts();
 
     let rt = tokio::runtime::Builder::new_current_thread().enable_all().start_paused(true).build().unwrap();
